@@ -76,7 +76,9 @@ pub const F: &str = "did:x:2";
 /// Method ids of the full universe: three fragments under the own DID, two under the foreign one, two ids that
 /// differ from another one only in query/path (distinct set keys that every query matches alike), and an id that
 /// collides with a service id.
-const METHOD_IDS: [&str; 8] = [
+const METHOD_IDS: [&str; 9] = [
+  // a fragment containing `/` (legal: fragment = *( pchar / "/" / "?" )); the DID part of such an id ends at the `#`
+  "did:x:1#k/1",
   "did:x:1#a",
   "did:x:1#b",
   "did:x:1#c",
@@ -86,10 +88,24 @@ const METHOD_IDS: [&str; 8] = [
   "did:x:1/p#b",
   "did:x:1#s",
 ];
-const SERVICE_IDS: [&str; 5] = ["did:x:1#s", "did:x:1#a", "did:x:2#s", "did:x:2#a", "did:x:1?v=1#s"];
-const RELATIVE_QUERIES: [&str; 7] = ["#a", "#b", "#c", "#s", "a", "b", "c"];
+const SERVICE_IDS: [&str; 7] = [
+  "did:x:1#s",
+  "did:x:1#a",
+  "did:x:2#s",
+  "did:x:2#a",
+  "did:x:1?v=1#s",
+  // fragments containing `?` and `/`
+  "did:x:1#s?x",
+  "did:x:1#k/1",
+];
+const RELATIVE_QUERIES: [&str; 9] = ["#a", "#b", "#c", "#s", "a", "b", "c", "#k/1", "k/1"];
 /// Queries resolved after every step (× scope ∈ {None, 6 scopes}).
-const RESOLVE_QUERIES: [&str; 21] = [
+const RESOLVE_QUERIES: [&str; 26] = [
+  "did:x:1#k/1",
+  "#k/1",
+  "k/1",
+  "did:x:1#s?x",
+  "#s?x",
   "did:x:1#a",
   "did:x:1#b",
   "did:x:1#c",
@@ -849,7 +865,7 @@ fn s(x: &str) -> String {
   x.to_string()
 }
 
-/// 43 operations: ids {D#a, D#b, F#a} × scopes {general, authentication, keyAgreement}, every query form, the service
+/// 47 operations: ids {D#a, D#b, F#a} × scopes {general, authentication, keyAgreement}, every query form, the service
 /// id that collides with a method id, and one query-variant id.
 fn reduced_ops() -> Vec<Op> {
   let mut ops = Vec::new();
@@ -878,6 +894,11 @@ fn reduced_ops() -> Vec<Op> {
   ops.push(Op::InsertMethod { id: s("did:x:1?v=1#a"), key: 4, scope: Scope::Rel(Rel::Authentication) });
   ops.push(Op::RemoveMethod { id: s("did:x:1?v=1#a"), and_scope: true });
   ops.push(Op::InsertService { id: s("did:x:1?v=1#s"), tag: 2 });
+  // ids whose fragment contains a `/` or a `?`
+  ops.push(Op::InsertMethod { id: s("did:x:1#k/1"), key: 5, scope: Scope::General });
+  ops.push(Op::Attach { query: s("did:x:1#k/1"), rel: Rel::Authentication });
+  ops.push(Op::InsertService { id: s("did:x:1#s?x"), tag: 2 });
+  ops.push(Op::InsertService { id: s("did:x:1#k/1"), tag: 2 });
   ops
 }
 
@@ -1001,9 +1022,9 @@ fn case_strategy() -> impl Strategy<Value = Case> {
 
 pub fn run(ctx: &mut Ctx) {
   ctx.rule = "Histories of checked mutations interpreted on CoreDocument and on a set-of-entries model; after every step: id constraints on the \
-    to_json() output (harness code only), frame condition for the reported result, from_json(to_json) == doc, and 21 queries × 7 scopes of \
+    to_json() output (harness code only), frame condition for the reported result, from_json(to_json) == doc, and 26 queries × 7 scopes of \
     resolve_method/resolve_method_mut plus resolve_service and methods(scope) against the model lookup. Exhaustive: every history of the stated \
-    depth over 43 operations (ids D#a, D#b, F#a, D?v=1#a × general/authentication/keyAgreement; queries as full id, #frag, frag; services D#s, \
+    depth over 47 operations (ids D#a, D#b, F#a, D?v=1#a × general/authentication/keyAgreement; queries as full id, #frag, frag; services D#s, \
     D#a, F#a) from 7 starting documents (empty; typical, dangling-reference and foreign-DID content, each built and deserialised). Random: \
     0..=5 content items and 0..=25 operations over 8 method ids, 5 service ids, 6 scopes, 5 relationships. Non-trivial = starting document has a \
     dangling reference, or the history has >= 1 refused operation and >= 1 operation whose fragment is already carried by some entry; \
